@@ -31,7 +31,7 @@ STUB = STUB_ALL
 GROUPS = {"g1": ["~id:m~ $[*][ yes() ]"], "g2": ['~id:m~ $[1*][ #1 == "a" ]', "~id:k~ $[*][ @c = count() ]"], "gr": ["~id:m~ $[*][ yes() ]"]}  # gr: only run as a replay of a ':last' reference
 ROWS = [["id", "h1"], ["r1", "a"], ["r2", "b"], [], ["r4", "a"]]
 TARGETS = {"g1": ["g1#m", "$g1.csvpaths.m:from"], "g2": ["g2#m", "g2#k", "$g2.csvpaths.m:from", "$g2.csvpaths.m:to", "$g2.csvpaths.k:to"]}
-PROFILES = ["same", "+1s", "+min", "to1259", "tomidnight", "+12h", "back"]
+PROFILES = ["same", "+1s", "+min", "to1259", "tomidnight", "+12h", "back", "+0.6s"]
 
 
 def _apply(rng, t, prof):
@@ -39,6 +39,9 @@ def _apply(rng, t, prof):
         return t
     if prof == "+1s":
         return t + _dt.timedelta(seconds=1)
+    if prof == "+0.6s":
+        # sub-second steps: .6 of one second, then .2 of the next
+        return t + _dt.timedelta(milliseconds=600)
     if prof == "+min":
         return t + _dt.timedelta(minutes=rng.randint(1, 90), seconds=rng.randint(0, 59))
     if prof == "to1259":
@@ -128,7 +131,7 @@ def generate(rng, i, tier):
         return generate_interleave(rng)
     long = rng.random() < 0.1
     n = rng.randint(8, 20) if long else rng.randint(2, 7)
-    t = seams.EPOCH.replace(hour=rng.choice([9, 11, 12, 22, 23]), minute=rng.choice([26, 58, 59]), second=rng.choice([53, 57, 58, 59]))
+    t = seams.EPOCH.replace(hour=rng.choice([9, 11, 12, 22, 23]), minute=rng.choice([26, 58, 59]), second=rng.choice([53, 57, 58, 59]), microsecond=rng.choice([0, 0, 600000]))
     # swarm: each history enables a subset of profiles / methods
     profs = rng.sample(PROFILES, rng.randint(2, len(PROFILES)))
     if "back" in profs and rng.random() < 0.6:
